@@ -218,7 +218,7 @@ Definition float_scan (l : list byte) : list byte * list byte :=
   let '(fz, l2) := fzeros_loop l1 false in
   let acc1 := if fz then c_zero :: acc0 else acc0 in
   let '(acc, l3) := float_loop l2 acc1 fz false false in
-  (rev acc, l3).
+  (rev_append acc [], l3).
 
 Section Float.
   (* strtod/strtof of the accumulated characters + __convert_to_v's rules: (bit pattern stored, failbit) *)
